@@ -28,7 +28,7 @@ ASSUMPTIONS = [
     "syndromes (sound together with the linearity monitor) plus random real executions",
     "pyModeS.common is the pure-Python module in this configuration; the C twin is covered by C15",
 ]
-REQUIRED = ["len56", "len112", "tail_text_echoed_in_payload", "encode_true", "encode_false", "legacy", "contract_internal_crc"]
+REQUIRED = ["len56", "len112", "tail_text_echoed_in_payload", "sibling_frame_seen_before", "encode_true", "encode_false", "legacy", "contract_internal_crc"]
 
 _state = {}
 
@@ -86,6 +86,20 @@ def m_exact(ctx, case):
     ctx.hit("len%d" % n)
     if case.get("echo"):
         ctx.hit("tail_text_echoed_in_payload")
+    if case.get("sibling"):
+        # call history: just before the checksum, other library functions that use crc() internally see a SIBLING frame
+        # (same leading 32 bits, other length / other tail) - the checksum of this frame must not depend on that
+        rng = ctx.rng
+        if n == 112:
+            sib = hx[:8] + "%06X" % rng.getrandbits(24)
+        else:
+            sib = hx[:8] + "%020X" % rng.getrandbits(80)
+        if hx.islower():
+            sib = sib.lower()
+        for fn in (s["pms"].icao, s["pms"].common.icao):
+            call(fn, sib)
+        call(s["py"].crc, sib, True)
+        ctx.hit("sibling_frame_seen_before")
     for enc in (False, True):
         exp = bits.polymod(x & ~0xFFFFFF if enc else x, n)
         fns = [("crc", s["py"].crc)]
@@ -301,7 +315,7 @@ def cases(ctx):
     for k in range(nrand):
         n = rng.choice((56, 112))
         yield "exact", {"n": n, "x": "%X" % rng.fill(n), "legacy": (k % 10 == 0),
-                        "case": "lower" if k % 3 == 0 else "upper"}
+                        "case": "lower" if k % 3 == 0 else "upper", "sibling": k % 4 == 1}
     # frames whose parity-field text also occurs inside the payload (a text-level operation on the tail must not touch it)
     for k in range(ctx.share(6000 if quick else 60000)):
         n = rng.choice((56, 112))
